@@ -1312,4 +1312,358 @@ theorem ql_qinv (w : World) (hnd : ∀ v, (w.dom v).Nodup) (e : Expr) : ∀ A B,
   | _ => intro A B hQ; simp [Expr.Ql] at hQ
 
 
+/-! ## Q8. The query level -/
+
+/-- a term adds at most one binding — of its own leaf node, which was unbound -/
+theorem evalTerm_fresh (w : World) (t : Term) :
+    ∀ cp env rs, evalTerm w cp t env = .ok rs → ∀ p ∈ rs,
+      p.1 = env ∨ ∃ k x, p.1 = (k, x) :: env ∧ env.lookup k = none ∧ k ∈ t.nodes ∧ ∀ v, k = Key.var v → x ∈ w.dom v := by
+  induction t with
+  | var v =>
+    intro cp env rs h p hp
+    simp only [evalTerm] at h; cases h
+    rcases evalVar_mem hp with ⟨y, _, rfl⟩ | ⟨hn, y, hy, rfl⟩
+    · left; rfl
+    · right; exact ⟨_, _, rfl, hn, by simp [Term.nodes], by intro v' hv'; cases hv'; exact hy⟩
+  | lit id x =>
+    intro cp env rs h p hp
+    rcases evalLit_cases w cp id x env with ⟨y, _, he⟩ | ⟨hn, he⟩
+    · rw [he] at h; cases h; simp only [List.mem_singleton] at hp; subst hp; left; rfl
+    · rw [he] at h; cases h; simp only [List.mem_singleton] at hp; subst hp
+      right; exact ⟨_, _, rfl, hn, by simp [Term.nodes], by intro v' hv'; cases hv'⟩
+  | attr t n ih =>
+    intro cp env rs h p hp
+    rw [evalTerm_attr] at h
+    obtain ⟨rs0, h0, h⟩ := bind_ok h
+    obtain ⟨g, _, rfl⟩ := mapVal_ok h
+    simp only [List.mem_map] at hp; obtain ⟨r, hr, rfl⟩ := hp
+    exact ih false env rs0 h0 r hr
+  | index t i ih =>
+    intro cp env rs h p hp
+    rw [evalTerm_index] at h
+    obtain ⟨rs0, h0, h⟩ := bind_ok h
+    obtain ⟨g, _, rfl⟩ := mapVal_ok h
+    simp only [List.mem_map] at hp; obtain ⟨r, hr, rfl⟩ := hp
+    exact ih false env rs0 h0 r hr
+  | flatten t ih =>
+    intro cp env rs h p hp
+    simp only [evalTerm] at h
+    obtain ⟨rs0, h0, h⟩ := bind_ok h
+    obtain ⟨g, hg, rfl⟩ := flatMapM_ok h
+    simp only [List.mem_flatMap] at hp; obtain ⟨r, hr, hp⟩ := hp
+    obtain ⟨xs, _, h2⟩ := bind_ok (hg r hr)
+    rw [← pure_ok h2] at hp
+    simp only [List.mem_map] at hp; obtain ⟨x, _, rfl⟩ := hp
+    exact ih false env rs0 h0 r hr
+
+theorem EnvFn.cons {env : Env} (h : EnvFn env) {k : Key} {x : Val} (hk : k ∉ keys env) : EnvFn ((k, x) :: env) := by
+  intro k' a b ha hb
+  rcases List.mem_cons.mp ha with ha | ha <;> rcases List.mem_cons.mp hb with hb | hb
+  · cases ha; cases hb; rfl
+  · cases ha; exact absurd (mem_keys hb) hk
+  · cases hb; exact absurd (mem_keys ha) hk
+  · exact h k' a b ha hb
+
+/-- **selection, soundness** for FUNCTIONAL row bindings (a key may be listed twice, with one value): `select_sound`
+of `Lemmas/EqlF1.lean` with `EnvFn` in place of duplicate-free keys -/
+theorem select_sound' (w : World) : ∀ (sel : List Term) (env : Env) (per : List (List Val)) (r : List Val),
+    (∀ s ∈ sel, s.noFlat = true ∧ s.noLit = true) → (sel.flatMap Term.vars).Nodup → EnvFn env →
+    sel.mapM (selVals w env) = .ok per → r ∈ product per →
+    ∃ pre : Env, EnvFn (pre ++ env) ∧
+      (∀ p ∈ pre, ∃ u, p.1 = .var u ∧ u ∈ sel.flatMap Term.vars ∧ p.2 ∈ w.dom u) ∧
+      ∀ τ, agreesB τ (pre ++ env) = true → Covers w τ (sel.flatMap Term.vars) →
+        ∀ ys, sel.mapM (tval w τ) = .ok ys → ys = r := by
+  intro sel
+  induction sel with
+  | nil =>
+    intro env per r _ _ hk hper hr
+    rw [List.mapM_nil] at hper
+    rw [← pure_ok hper, mem_product_nil] at hr
+    subst hr
+    refine ⟨[], hk, by simp, ?_⟩
+    intro τ _ _ ys hys
+    rw [List.mapM_nil] at hys
+    exact (pure_ok hys).symm
+  | cons s rest ih =>
+    intro env per r hsel hnd hk hper hr
+    rw [List.mapM_cons] at hper
+    obtain ⟨vs, hvs, hper⟩ := bind_ok hper
+    obtain ⟨per', hper', hper⟩ := bind_ok hper
+    rw [← pure_ok hper, mem_product_cons] at hr
+    obtain ⟨x, r', rfl, hx, hr'⟩ := hr
+    obtain ⟨rs, hrs, hvs⟩ := bind_ok hvs
+    rw [← pure_ok hvs, List.mem_map] at hx
+    obtain ⟨p, hp, rfl⟩ := hx
+    rw [List.flatMap_cons, List.nodup_append] at hnd
+    obtain ⟨hs1, hs2⟩ := hsel s (List.mem_cons_self)
+    obtain ⟨pre', hk', hpre', hτ'⟩ :=
+      ih env per' r' (fun t ht => hsel t (List.mem_cons_of_mem _ ht)) hnd.2.1 hk hper' hr'
+    -- the part of the statement that does not depend on the shape of `p.1`
+    have hτpart : ∀ pre : Env, p.1 = pre ++ env → ∀ τ, agreesB τ ((pre ++ pre') ++ env) = true →
+        Covers w τ (s.vars ++ rest.flatMap Term.vars) →
+        ∀ ys, (s :: rest).mapM (tval w τ) = .ok ys → ys = p.2.1 :: r' := by
+      intro pre hpe τ hag hcov ys hys
+      rw [List.append_assoc] at hag
+      obtain ⟨hag1, hag2⟩ := agreesB_sub hag
+      rw [List.mapM_cons] at hys
+      obtain ⟨y, hy, hys⟩ := bind_ok hys
+      obtain ⟨ys', hys', hys⟩ := bind_ok hys
+      rw [← pure_ok hys]
+      have hcs : Covers w τ s.vars := fun v hv => hcov v (List.mem_append_left _ hv)
+      have hcr : Covers w τ (rest.flatMap Term.vars) := fun v hv => hcov v (List.mem_append_right _ hv)
+      have hagenv : agreesB τ env = true := by
+        rw [agreesB_append, Bool.and_eq_true] at hag1; exact hag1.2
+      have hc := evalTerm_cover w τ s false env rs y hs1 hcs (litFresh_noLit hs2 env) hagenv hrs hy
+      have hpc : p ∈ cells τ rs := List.mem_filter.mpr ⟨hp, by rw [hpe]; exact hag1⟩
+      have : p.2.1 ∈ (cells τ rs).map (·.2.1) := List.mem_map.mpr ⟨p, hpc, rfl⟩
+      rw [hc, List.mem_singleton] at this
+      rw [this, hτ' τ hag2 hcr ys' hys']
+    rcases evalTerm_fresh w s false env rs hrs p hp with hpe | ⟨k, y, hpe, hkn, hkm, hkd⟩
+    · refine ⟨pre', hk', ?_, ?_⟩
+      · intro q hq
+        obtain ⟨u, hu, hus, hd⟩ := hpre' q hq
+        exact ⟨u, hu, List.mem_append_right _ hus, hd⟩
+      · intro τ hag hcov ys hys
+        exact hτpart [] (by simpa using hpe) τ (by simpa using hag) (by simpa [List.flatMap_cons] using hcov) ys hys
+    · obtain ⟨u, hu, hus⟩ := Term.nodes_noLit hs2 hkm
+      subst hu
+      refine ⟨(Key.var u, y) :: pre', ?_, ?_, ?_⟩
+      · apply EnvFn.cons hk'
+        intro hmem
+        simp only [keys, List.map_append, List.mem_append, List.mem_map] at hmem
+        rcases hmem with ⟨q, hq, hq1⟩ | ⟨q, hq, hq1⟩
+        · obtain ⟨u', hu', hus', _⟩ := hpre' q hq
+          rw [hu'] at hq1; cases hq1
+          exact hnd.2.2 u hus u hus' rfl
+        · exact not_mem_keys_of_lookup_none hkn (hq1 ▸ mem_keys (x := q.2) hq)
+      · intro q hq
+        rcases List.mem_cons.mp hq with rfl | hq
+        · exact ⟨u, rfl, List.mem_append_left _ hus, hkd u rfl⟩
+        · obtain ⟨u', hu', hus', hd⟩ := hpre' q hq
+          exact ⟨u', hu', List.mem_append_right _ hus', hd⟩
+      · intro τ hag hcov ys hys
+        exact hτpart [(Key.var u, y)] (by simpa using hpe) τ (by simpa using hag)
+          (by simpa [List.flatMap_cons] using hcov) ys hys
+
+theorem mapM_congr_mem {α β} {f g : α → Except Err β} : ∀ {l : List α}, (∀ x ∈ l, f x = g x) → l.mapM f = l.mapM g := by
+  intro l
+  induction l with
+  | nil => intro _; rfl
+  | cons a t ih =>
+    intro h
+    rw [List.mapM_cons, List.mapM_cons, h a List.mem_cons_self, ih (fun x hx => h x (List.mem_cons_of_mem _ hx))]
+
+theorem lookup_append_of_isSome {σ ρ : Asg} {v : VarId} (h : (σ.lookup v).isSome = true) :
+    (σ ++ ρ).lookup v = σ.lookup v := by
+  rw [List.lookup_append]
+  cases hl : σ.lookup v with
+  | none => rw [hl] at h; cases h
+  | some x => rfl
+
+theorem lookup_append_of_not_mem {ρ σ : Asg} {v : VarId} (h : ∀ b ∈ ρ, b.1 ≠ v) : (ρ ++ σ).lookup v = σ.lookup v := by
+  rw [List.lookup_append]
+  have : ρ.lookup v = none := by
+    rw [List.lookup_eq_none_iff]
+    intro b hb
+    simp only [bne_iff_ne, ne_eq]
+    exact fun heq => h b hb heq.symm
+  rw [this]; rfl
+
+theorem covers_congr {w : World} {τ τ' : Asg} {vs : List VarId} (h : Covers w τ vs)
+    (heq : ∀ v ∈ vs, τ'.lookup v = τ.lookup v) : Covers w τ' vs := by
+  intro v hv
+  obtain ⟨x, hx, hc⟩ := h v hv
+  exact ⟨x, by rw [heq v hv]; exact hx, hc⟩
+
+theorem mem_vars_fq {e : Expr} {v : VarId} (h : v ∈ e.vars) : v ∈ e.fvars ∨ v ∈ e.qvars := by
+  induction e with
+  | and l r ihl ihr =>
+    simp only [Expr.vars, Expr.fvars, Expr.qvars, List.mem_append] at h ⊢
+    rcases h with h | h
+    · rcases ihl h with h | h <;> simp [h]
+    · rcases ihr h with h | h <;> simp [h]
+  | elseIf l r ihl ihr =>
+    simp only [Expr.vars, Expr.fvars, Expr.qvars, List.mem_append] at h ⊢
+    rcases h with h | h
+    · rcases ihl h with h | h <;> simp [h]
+    · rcases ihr h with h | h <;> simp [h]
+  | union l r ihl ihr =>
+    simp only [Expr.vars, Expr.fvars, Expr.qvars, List.mem_append] at h ⊢
+    rcases h with h | h
+    · rcases ihl h with h | h <;> simp [h]
+    · rcases ihr h with h | h <;> simp [h]
+  | not e ih => exact ih h
+  | exists_ q e ih =>
+    simp only [Expr.vars, Expr.fvars, Expr.qvars, List.mem_cons, List.mem_filter] at h ⊢
+    by_cases hvq : v = q
+    · right; left; exact hvq
+    · rcases h with h | h
+      · exact absurd h hvq
+      · rcases ih h with h | h
+        · left; exact ⟨h, by simp [hvq]⟩
+        · right; right; exact h
+  | forAll q e ih =>
+    simp only [Expr.vars, Expr.fvars, Expr.qvars, List.mem_cons, List.mem_filter] at h ⊢
+    by_cases hvq : v = q
+    · right; left; exact hvq
+    · rcases h with h | h
+      · exact absurd h hvq
+      · rcases ih h with h | h
+        · left; exact ⟨h, by simp [hvq]⟩
+        · right; right; exact h
+  | _ => left; exact h
+
+/-- **soundness and completeness on the quantifier fragment** (as sets of rows) -/
+theorem sound_complete_Ql (w : World) (sel : List Term) (c : SExpr)
+    (hQ : (build c).Ql [] [] = true) (hsel : selF1 sel = true) (hms : (sel.flatMap Term.vars).Nodup)
+    (hsq : ∀ v ∈ (build c).qvars, v ∉ sel.flatMap Term.vars)
+    (hnd : ∀ v, (w.dom v).Nodup)
+    (hne : ∀ v ∈ SQuery.vars { sel := sel, cond := some c }, w.dom v ≠ [])
+    (hlit : LitNodup (build c))
+    {rows rows' : List (List Val)}
+    (h1 : evalQuery w { sel := sel, cond := some (build c) } = .ok rows)
+    (h2 : solutions w { sel := sel, cond := some c } = .ok rows') :
+    ∀ r, r ∈ rows ↔ r ∈ rows' := by
+  have hselp : ∀ s ∈ sel, s.noFlat = true ∧ s.noLit = true := by
+    intro s hs
+    have := List.all_eq_true.mp hsel s hs
+    simpa using this
+  obtain ⟨vs, hvs⟩ : ∃ vs, vs = SQuery.vars { sel := sel, cond := some c } := ⟨_, rfl⟩
+  rw [← hvs] at hne
+  have hvsn : vs.Nodup := by rw [hvs]; exact dedupNat_nodup _
+  have hvsm : ∀ v, v ∈ vs ↔ v ∈ sel.flatMap Term.vars ∨ v ∈ (build c).fvars := by
+    intro v; rw [hvs, SQuery.vars, mem_dedupNat, build_fvars, List.mem_append]
+  let qs := (build c).qvars
+  have hqvs : ∀ v ∈ qs, v ∉ vs := by
+    intro v hv hvv
+    rcases (hvsm v).mp hvv with h | h
+    · exact hsq v hv h
+    · exact (ql_qvars _ _ _ hQ v hv).2 h
+  -- the evaluation side
+  unfold evalQuery at h1
+  obtain ⟨rs, hrs, h1⟩ := bind_ok h1
+  obtain ⟨T, hT, h1⟩ := bind_ok h1
+  have hT := (pure_ok hT).symm
+  obtain ⟨gF, hgF, rfl⟩ := flatMapM_ok h1
+  have hgF' : ∀ env ∈ T, ∃ per, sel.mapM (selVals w env) = .ok per ∧ gF env = product per := by
+    intro env henv
+    obtain ⟨per, hper, hp⟩ := bind_ok (hgF env henv)
+    exact ⟨per, hper, (pure_ok hp).symm⟩
+  have hinv : QInv w (build c) [] rs :=
+    ql_qinv w hnd (build c) [] [] hQ hlit [] rs List.nodup_nil (by simp) (by simp) (fun _ _ => rfl) hrs
+  have hfacts : ∀ p ∈ rs, p.2 = true → ∀ v x, (Key.var v, x) ∈ p.1 → (v ∈ vs ∨ v ∈ qs) ∧ x ∈ w.dom v := by
+    intro p hp hpt v x hm
+    rcases (hinv.ext p hp hpt).2 _ hm with h | h
+    · cases h
+    · obtain ⟨hv, hx⟩ := h v rfl
+      refine ⟨?_, hx⟩
+      rcases mem_vars_fq hv with h | h
+      · left; exact (hvsm v).mpr (Or.inr h)
+      · right; exact h
+  -- the specification side
+  unfold solutions at h2
+  obtain ⟨sols, hsols, h2⟩ := bind_ok h2
+  rw [← hvs] at hsols
+  obtain ⟨pred, hpred, hsolsEq⟩ := filterM_ok hsols
+  obtain ⟨g', hg', rfl⟩ := mapM_ok h2
+  have hcovers : ∀ σ ∈ assignments w vs, ∀ us : List VarId, (∀ u ∈ us, u ∈ vs) → Covers w σ us := by
+    intro σ hσ us hus v hv
+    obtain ⟨x, hx, hxd⟩ := assignments_lookup hvsn hσ (hus v hv)
+    exact ⟨x, hx, by rw [(hnd v).count]; simp [hxd]⟩
+  have hsatσ : ∀ σ ∈ assignments w vs, satE w (build c) σ = .ok (pred σ) := by
+    intro σ hσ; rw [← satE_build]; exact hpred σ hσ
+  have hfvs : ∀ u ∈ (build c).fvars, u ∈ vs := fun u hu => (hvsm u).mpr (Or.inr hu)
+  have hsvs : ∀ u ∈ sel.flatMap Term.vars, u ∈ vs := fun u hu => (hvsm u).mpr (Or.inl hu)
+  intro r
+  constructor
+  · -- soundness
+    intro hr
+    obtain ⟨env, henv, hr⟩ := List.mem_flatMap.mp hr
+    obtain ⟨per, hper, hgp⟩ := hgF' env henv
+    rw [hgp] at hr
+    rw [hT] at henv
+    simp only [List.mem_map, List.mem_filter] at henv
+    obtain ⟨p, ⟨hp, hpt⟩, rfl⟩ := henv
+    obtain ⟨pre, hfnp, hpre, hτ⟩ := select_sound' w sel p.1 per r hselp hms (hinv.fn p hp hpt) hper hr
+    -- the assignment read off the extended cell (free variables; then the quantified ones)
+    let σ : Asg := vs.map fun v => (v, ((pre ++ p.1).lookup (.var v)).getD ((w.dom v).headD .none))
+    let ρ : Asg := qs.map fun v => (v, ((pre ++ p.1).lookup (.var v)).getD .none)
+    have hall : ∀ v x, (Key.var v, x) ∈ pre ++ p.1 → (v ∈ vs ∨ v ∈ qs) ∧ x ∈ w.dom v := by
+      intro v x hm
+      rcases List.mem_append.mp hm with hm | hm
+      · obtain ⟨u, hu, hus, hd⟩ := hpre _ hm
+        cases hu
+        exact ⟨Or.inl (hsvs v hus), hd⟩
+      · exact hfacts p hp hpt v x hm
+    have hσ : σ ∈ assignments w vs := by
+      rw [mem_assignments]
+      refine ⟨by simp [σ, List.map_map, Function.comp_def], ?_⟩
+      intro q hq
+      simp only [σ, List.mem_map] at hq
+      obtain ⟨v, hv, rfl⟩ := hq
+      cases hl : (pre ++ p.1).lookup (.var v) with
+      | none => simp only [Option.getD_none]; exact headD_mem (hne v hv) _
+      | some x => exact (hall v x (lookup_mem' hl)).2
+    have hlkσ : ∀ v ∈ vs, (σ ++ ρ).lookup v = σ.lookup v := by
+      intro v hv
+      apply lookup_append_of_isSome
+      simp only [σ]; rw [lookup_map_self, if_pos hv]; rfl
+    have hag : agreesB (σ ++ ρ) (pre ++ p.1) = true := by
+      rw [agreesB_iff]
+      intro v x hm
+      have hlk := hfnp.lookup hm
+      by_cases hv : v ∈ vs
+      · rw [hlkσ v hv]
+        simp only [σ]
+        rw [lookup_map_self, if_pos hv, hlk]; rfl
+      · have hq : v ∈ qs := (hall v x hm).1.resolve_left hv
+        rw [List.lookup_append]
+        have h1 : σ.lookup v = none := by simp only [σ]; rw [lookup_map_self, if_neg hv]
+        have h2 : ρ.lookup v = some x := by simp only [ρ]; rw [lookup_map_self, if_pos hq, hlk]; rfl
+        rw [h1, h2]; rfl
+    have hagp : agreesB (σ ++ ρ) p.1 = true := by
+      rw [agreesB_append, Bool.and_eq_true] at hag; exact hag.2
+    have hpredσ : pred σ = true := by
+      apply hinv.sound p hp hpt (σ ++ ρ) (pred σ) (covers_congr (hcovers σ hσ _ hfvs) (fun v hv => hlkσ v (hfvs v hv))) hagp
+      rw [← hsatσ σ hσ]
+      exact satE_congr w _ _ _ (fun v hv => hlkσ v (hfvs v hv))
+    have hσs : σ ∈ sols := by rw [hsolsEq]; exact List.mem_filter.mpr ⟨hσ, hpredσ⟩
+    have := hτ (σ ++ ρ) hag (covers_congr (hcovers σ hσ _ hsvs) (fun v hv => hlkσ v (hsvs v hv))) (g' σ) (by
+      rw [← hg' σ hσs]
+      apply mapM_congr_mem
+      intro s hs
+      apply tval_congr
+      intro v hv
+      exact hlkσ v (hsvs v (List.mem_flatMap.mpr ⟨s, hs, hv⟩)))
+    rw [← this]
+    exact List.mem_map.mpr ⟨σ, hσs, rfl⟩
+  · -- completeness
+    intro hr
+    obtain ⟨σ, hσs, rfl⟩ := List.mem_map.mp hr
+    have hσs' := hσs
+    rw [hsolsEq] at hσs'
+    obtain ⟨hσ, hpredσ⟩ := List.mem_filter.mp hσs'
+    obtain ⟨p, hp, hpt, ρ, hρ, hagp⟩ := hinv.complete σ (hcovers σ hσ _ hfvs) (agreesB_nil σ)
+      (by rw [hsatσ σ hσ, hpredσ])
+    have hpT : p.1 ∈ T := by
+      rw [hT]
+      exact List.mem_map.mpr ⟨p, List.mem_filter.mpr ⟨hp, hpt⟩, rfl⟩
+    obtain ⟨per, hper, hgp⟩ := hgF' p.1 hpT
+    refine List.mem_flatMap.mpr ⟨p.1, hpT, ?_⟩
+    rw [hgp]
+    have hlk : ∀ v ∈ sel.flatMap Term.vars, (ρ ++ σ).lookup v = σ.lookup v := by
+      intro v hv
+      apply lookup_append_of_not_mem
+      intro b hb heq
+      exact hsq _ (hρ b hb) (heq ▸ hv)
+    apply select_complete w (ρ ++ σ) sel p.1 per (g' σ) hselp hagp
+      (covers_congr (hcovers σ hσ _ hsvs) hlk) hper
+    rw [← hg' σ hσs]
+    apply mapM_congr_mem
+    intro s hs
+    apply tval_congr
+    intro v hv
+    exact hlk v (List.mem_flatMap.mpr ⟨s, hs, hv⟩)
+
+
 end KrroodVerif.Eql
